@@ -45,6 +45,7 @@ func (e *Engine) VerifyFunction(fn *ssa.Function, con *Contract, prof *Profile) 
 		fr.params[p.Name()] = t
 		st.names[p.Name()] = t
 	}
+	c.collectInputTerms(st, fn, fr)
 	fr.oldState = st.clone()
 	env := c.newEnv(fr, st)
 	for _, l := range con.Lets {
@@ -173,6 +174,41 @@ func (e *Engine) VerifyFunction(fn *ssa.Function, con *Contract, prof *Profile) 
 	}
 	res.Obls = c.obls
 	return res
+}
+
+// collectInputTerms: the entry-state terms a replay needs: scalar parameters, scalar fields of structs the
+// parameters point to, and for interface parameters the dynamic type tag and the int32/float32 payloads.
+func (c *FnCtx) collectInputTerms(st *State, fn *ssa.Function, fr *frame) {
+	defer func() { recover() }() // best effort: never fail a verification because of replay bookkeeping
+	scalar := func(srt string) bool {
+		_, bv := isBV(srt)
+		return srt == SInt || srt == SBool || srt == SFP32 || srt == SFP64 || bv
+	}
+	for _, p := range fn.Params {
+		t := fr.params[p.Name()]
+		switch u := p.Type().Underlying().(type) {
+		case *types.Basic:
+			if scalar(t.Sort) {
+				c.inputTerms = append(c.inputTerms, InputTerm{p.Name(), t.S})
+			}
+		case *types.Pointer:
+			if su, ok := u.Elem().Underlying().(*types.Struct); ok {
+				for i := 0; i < su.NumFields(); i++ {
+					ft := su.Field(i).Type()
+					if _, ok := ft.Underlying().(*types.Basic); !ok || !scalar(c.sortOf(ft)) {
+						continue
+					}
+					reg, _ := c.fieldRegion(u.Elem(), i)
+					c.inputTerms = append(c.inputTerms, InputTerm{p.Name() + "." + su.Field(i).Name(), fmt.Sprintf("(select %s %s)", c.get(st, reg), t.S)})
+				}
+			}
+		case *types.Interface:
+			c.inputTerms = append(c.inputTerms, InputTerm{p.Name() + ".tag", fmt.Sprintf("(if_tag %s)", t.S)})
+			for _, bt := range []types.Type{types.Typ[types.Int32], types.Typ[types.Float32]} {
+				c.inputTerms = append(c.inputTerms, InputTerm{p.Name() + "." + bt.String(), c.unbox(t, bt).S})
+			}
+		}
+	}
 }
 
 var _ = types.Typ
